@@ -367,6 +367,7 @@ pub fn item(i: usize, seed: u64, small: &[ResolvedType], stats: &mut SweepStats)
         }
         return Ok(());
     }
+    simcore::valgen::set_wide_permille(60);
     let depth = rng.below(4);
     // one random item in five is "correlated": the components of the value share their bytes
     let correlated = rng.below(5) == 0;
@@ -393,5 +394,6 @@ pub fn item(i: usize, seed: u64, small: &[ResolvedType], stats: &mut SweepStats)
         res = roundtrip(&ty, &v);
     }
     simcore::valgen::set_pool(None);
+    simcore::valgen::set_wide_permille(8);
     res
 }
